@@ -123,7 +123,9 @@ def _default_key_normalizer(
     # These are both dictionaries and need to be transformed into frozensets
     for key in ("headers", "_proxy_headers", "_socks_options"):
         if key in context and context[key] is not None:
-            context[key] = frozenset(context[key].items())
+            # iter(): HTTPHeaderDict.items() is a set subclass that only overrides
+            # __iter__, and frozenset() copies a set's own (empty) storage instead.
+            context[key] = frozenset(iter(context[key].items()))
 
     # The socket_options key may be a list and needs to be transformed into a
     # tuple.
